@@ -980,6 +980,8 @@ def c16(out, tier):
         errs = [e for r in dumps.get("C16 %s" % cu["name"], []) for e in r["errors"]]
         if errs:
             bad.append("%s: %s" % (cu["name"], errs[0][-300:]))
+        elif nat and nat[0].startswith("EXIT 101") and any(isinstance(x, str) and x.startswith("panic") for x in cands):
+            pass                                   # both panic: agreement (the symbolic run reports the panic path)
         elif nat not in cands:
             bad.append("%s %r: native %r, interpreted %r" % (cu["name"], cu["concrete"], nat[:4], cands[:1]))
     out.extra["self_validation"] = {"cases": nval, "mismatches": len(bad), "what": "concrete instances: interpreted MIR of XmlTreeBuilder vs the native build over RcDom"}
@@ -1248,9 +1250,13 @@ def replay(path):
         r = json.load(f)
     if r.get("engine") == "kani":
         vals = [[int(h[i:i + 2], 16) for i in range(0, len(h), 2)] for h in r["values"].split(",")] if r["values"] else []
-        res = K.native_replay(r["crate"], r["harness"], vals)
+        res = K.native_replay(r["crate"], r["harness"], vals, fill=r.get("fill"))
         print(json.dumps(res, indent=1))
         bad = any(res.get(p) == "fails" for p in ("dev", "release"))
+        if not bad and r.get("miri"):
+            verdict, msg = K.miri_replay(r["crate"], r["harness"], vals, fill=r.get("fill"))
+            print("miri: %s %s" % (verdict, msg))
+            bad = verdict == "ub"
         if bad:
             print("VIOLATION property=%s replay=%s" % (r["property"], path))
         return 1 if bad else 0
